@@ -7,7 +7,7 @@ import SqiModel.SkelEven
 import SqiProofs.EvenChain
 
 namespace SqiProofs.SkelEvenSim
-open SqiGen.ChainSkel SqiModel.Skel SqiModel.SkelEven SqiModel.EvenChain
+open SqiGen.ChainSkel SqiModel.Skel SqiModel.SkelEven SqiModel.EvenChain SqiProofs.EvenChain
 
 theorem w64 : W64 = 18446744073709551616 := rfl
 
@@ -191,5 +191,195 @@ theorem body2 (k : EvenSt OSt) (c o b odd : Nat) (hf : k.fault = none) (hb : k.o
   generalize (((tpep : Int) - ((len : Int) % W64)) % W64) = r at hrd ⊢
   simp [EvenSt.step, EvenSt.live, obs, hf, hb, hrd, hin, extra]
 end Body2
+
+
+/-! ### the simulation relation -/
+
+/-- side conditions under which the C's unsigned 64-bit arithmetic coincides with integer arithmetic and the
+    interpreter's fuel suffices: `M` bounds the entries of the table row. -/
+structure Hyp (T : List (List Nat)) (tpep len M fuel : Nat) : Prop where
+  hle : len ≤ tpep
+  htp : (tpep : Int) < W64
+  hrow : tpep - len < T.length
+  hM : ∀ x ∈ (mkParams T tpep len).row, x ≤ M
+  hfu2 : 2 * M ≤ fuel
+  hfur : (mkParams T tpep len).row.length ≤ fuel
+  hfuh : len ≤ fuel
+  hmag : (mkParams T tpep len).row.length * M + len * M + len + 1 < 18446744073709551616
+
+/-- invariant between the integer state `k` of the generated skeleton (with the order-tracking observer) and the state
+    `m` of the hand model, in iteration `j` of the main loop -/
+structure Rel (P : Params) (M j : Nat) (k : EvenSt OSt) (m : St) : Prop where
+  kf : k.fault = none
+  kb : k.obs.bad = false
+  me : m.err = none
+  st : k.strategy = (m.strategy : Int)
+  bl : k.BLOCK = m.block
+  cu : k.current = m.current
+  jj : k.j = (j : Int)
+  eh : k.e_half = (P.eHalf : Int)
+  od : k.is_odd = (P.isOdd : Int)
+  xs : k.XDBLs.size = (P.vla : Int)
+  xg : ∀ i : Nat, k.XDBLs.get (i : Int) = (m.xdbls i).map Int.ofNat
+  os : k.obs.size = (P.vla : Int)
+  og : ∀ i : Nat, k.obs.sp (i : Int) = m.sp i
+  ke : k.obs.kers = m.trace.flatMap kerOf
+  xm : ∀ i v, m.xdbls i = some v → v ≤ M
+  lo : -((j * M : Nat) : Int) ≤ m.block
+  hi : m.block ≤ ((m.strategy * M : Nat) : Int)
+  sl : m.strategy ≤ P.row.length
+
+theorem pushBody_noerr (P : Params) (s : St) (b : Nat) (he : (pushBody P s b).err = none) :
+    ∃ c o : Nat, s.current = (c : Int) ∧ c + 1 < P.vla ∧ s.sp c = some o := by
+  unfold pushBody at he
+  simp only [Int.add_sub_cancel, Bool.and_eq_true] at he
+  split at he
+  · rename_i h
+    have h' := h
+    simp [idxOK] at h'
+    refine ⟨s.current.toNat, ?_⟩
+    cases ho : s.sp s.current.toNat with
+    | none => simp [St.emit, St.fail, ho] at he
+    | some o => exact ⟨o, by omega, by omega, rfl⟩
+  · simp [St.emit, St.fail] at he
+
+section Push
+variable (T : List (List Nat)) (tpep len : Nat) (oracle : Nat → Bool) (fuel : Nat) (pl : Int) (M : Nat)
+
+theorem isOdd_le (P : Params) : P.isOdd ≤ 1 := by unfold Params.isOdd; omega
+
+/-- S1: one iteration of the inner `while` -/
+theorem push_sim (H : Hyp T tpep len M fuel) (j : Nat) (k : EvenSt OSt) (m : St)
+    (R : Rel (mkParams T tpep len) M j k m) (hs : m.strategy < (mkParams T tpep len).row.length)
+    (he : (pushBody (mkParams T tpep len) m (mkParams T tpep len).row[m.strategy]).err = none) :
+    Rel (mkParams T tpep len) M j (ec_eval_even_strategy_loop2_body obs T tpep oracle fuel len pl k)
+      { pushBody (mkParams T tpep len) m (mkParams T tpep len).row[m.strategy] with strategy := m.strategy + 1 } := by
+  obtain ⟨c, o, hc, hv, ho⟩ := pushBody_noerr _ m _ he
+  have hbM : (mkParams T tpep len).row[m.strategy] ≤ M := H.hM _ (List.getElem_mem hs)
+  have hrd := rdTab_row T tpep len m.strategy H.hle H.htp H.hrow hs
+  have hg : (mkParams T tpep len).row.getD m.strategy 0 = (mkParams T tpep len).row[m.strategy] := by
+    simp [List.getD, List.getElem?_eq_getElem hs]
+  rw [← R.st, hg] at hrd
+  obtain ⟨lg, hk⟩ := body2 T tpep len oracle fuel pl k c o (mkParams T tpep len).row[m.strategy] (mkParams T tpep len).isOdd
+    R.kf R.kb (by rw [R.cu, hc]) (by rw [R.os]; omega) (by rw [R.og, ho]) R.od hrd (by rw [R.xs, R.os])
+    (by have := H.hfu2; omega)
+  rw [hk, pushBody_ok _ m c _ o R.me hc hv ho]
+  have hodd := isOdd_le (mkParams T tpep len)
+  constructor
+  · exact R.kf
+  · simp [R.kb]
+  · rfl
+  · simp [pushed, R.st]
+  · simp [pushed, R.bl]
+  · simp [pushed]
+  · exact R.jj
+  · exact R.eh
+  · exact R.od
+  · simp [IArr.set, R.xs]
+  · intro i
+    simp only [IArr.set, pushed, upd]
+    by_cases hi : i = c + 1
+    · subst hi; simp
+    · have : ¬ (i : Int) = (c : Int) + 1 := by omega
+      simp [hi, this, R.xg]
+  · simp [R.os]
+  · intro i
+    simp only [obsDbl_sp, pushed, upd]
+    by_cases hi : i = c + 1
+    · subst hi
+      have : (mkParams T tpep len).isOdd ≠ 0 ↔ (mkParams T tpep len).isOdd = 1 := by omega
+      simp [this]
+    · have : ¬ (i : Int) = (c : Int) + 1 := by omega
+      simp [hi, this, R.og]
+  · simp [pushed, R.ke, kerOf]
+  · intro i v
+    simp only [pushed, upd]
+    by_cases hi : i = c + 1
+    · simp [hi]; intro h; omega
+    · simp [hi]; exact R.xm i v
+  · have := R.lo; simp only [pushed]; omega
+  · have := R.hi
+    simp only [pushed]
+    have e : (m.strategy + 1) * M = m.strategy * M + M := by rw [Nat.add_mul]; simp
+    rw [e]; push_cast at this ⊢; omega
+  · simp only [pushed]; omega
+end Push
+
+
+section While
+variable (T : List (List Nat)) (tpep len : Nat) (oracle : Nat → Bool) (fuel : Nat) (pl : Int) (M : Nat)
+
+theorem cond2_iff (H : Hyp T tpep len M fuel) (j : Nat) (k : EvenSt OSt) (m : St)
+    (R : Rel (mkParams T tpep len) M j k m) (hj : j < (mkParams T tpep len).eHalf) :
+    (match ec_eval_even_strategy_loop2_cond obs T tpep oracle fuel len pl k with | .ok b => b | .error _ => true) =
+      decide (m.block ≠ ((mkParams T tpep len).eHalf : Int) - 1 - (j : Int)) := by
+  simp only [ec_eval_even_strategy_loop2_cond, R.bl, R.eh, R.jj]
+  have h1 := R.lo
+  have h2 := R.hi
+  have h3 := H.hmag
+  have h4 : j * M ≤ len * M := Nat.mul_le_mul_right M (by
+    have : (mkParams T tpep len).eHalf = len / 2 := rfl
+    omega)
+  have h5 : m.strategy * M ≤ (mkParams T tpep len).row.length * M := Nat.mul_le_mul_right M R.sl
+  have h6 : (mkParams T tpep len).eHalf = len / 2 := rfl
+  rw [w64]
+  congr 1
+  apply propext
+  constructor <;> intro h <;> omega
+
+/-- S2: the inner `while` -/
+theorem while_sim (H : Hyp T tpep len M fuel) (j : Nat) (hj : j < (mkParams T tpep len).eHalf) :
+    ∀ (n f : Nat) (k : EvenSt OSt) (m : St), Rel (mkParams T tpep len) M j k m →
+      (mkParams T tpep len).row.length - m.strategy ≤ n → n ≤ f →
+      (whileLoop (mkParams T tpep len) j m).err = none →
+      Rel (mkParams T tpep len) M j
+        (whileF (EvenSt.live obs)
+          (fun s => match ec_eval_even_strategy_loop2_cond obs T tpep oracle fuel len pl s with | .ok b => b | .error _ => true)
+          (fun s => match ec_eval_even_strategy_loop2_cond obs T tpep oracle fuel len pl s with
+            | .ok _ => ec_eval_even_strategy_loop2_body obs T tpep oracle fuel len pl s | .error f => s.fail f)
+          (fun s => s.fail .fuel) f k)
+        (whileLoop (mkParams T tpep len) j m) := by
+  intro n
+  induction n with
+  | zero =>
+    intro f k m R hn hf he
+    have hc := cond2_iff T tpep len oracle fuel pl M H j k m R hj
+    by_cases hb : m.block = ((mkParams T tpep len).eHalf : Int) - 1 - (j : Int)
+    · rw [whileLoop_exit _ j m R.me hb]
+      rw [whileF_stop _ _ _ _ _ _ (by simp only [hc]; simp [hb])]
+      exact R
+    · exfalso
+      rw [whileLoop] at he
+      have : ¬ m.strategy < (mkParams T tpep len).row.length := by omega
+      simp [R.me, hb, this, St.fail] at he
+  | succ n ih =>
+    intro f k m R hn hf he
+    have hc := cond2_iff T tpep len oracle fuel pl M H j k m R hj
+    by_cases hb : m.block = ((mkParams T tpep len).eHalf : Int) - 1 - (j : Int)
+    · rw [whileLoop_exit _ j m R.me hb]
+      rw [whileF_stop _ _ _ _ _ _ (by simp only [hc]; simp [hb])]
+      exact R
+    · by_cases hs : m.strategy < (mkParams T tpep len).row.length
+      · obtain ⟨f', rfl⟩ : ∃ f', f = f' + 1 := ⟨f - 1, by omega⟩
+        have hlive : EvenSt.live obs k = true := by simp [EvenSt.live, obs, R.kf, R.kb]
+        rw [whileF_step _ _ _ _ _ _ (by simp only [hc, hlive]; simp [hb])]
+        rw [whileLoop_push _ j m R.me hb hs] at he ⊢
+        have hpe : (pushBody (mkParams T tpep len) m (mkParams T tpep len).row[m.strategy]).err = none := by
+          cases hq : (pushBody (mkParams T tpep len) m (mkParams T tpep len).row[m.strategy]).err with
+          | none => rfl
+          | some e =>
+            rw [whileLoop_err _ j _ (by simp [hq])] at he
+            simp [hq] at he
+        have R' := push_sim T tpep len oracle fuel pl M H j k m R hs hpe
+        have hbody : (match ec_eval_even_strategy_loop2_cond obs T tpep oracle fuel len pl k with
+            | .ok _ => ec_eval_even_strategy_loop2_body obs T tpep oracle fuel len pl k | .error f => k.fail f) =
+            ec_eval_even_strategy_loop2_body obs T tpep oracle fuel len pl k := by
+          simp [ec_eval_even_strategy_loop2_cond]
+        rw [hbody]
+        exact ih f' _ _ R' (by simp only []; omega) (by omega) he
+      · exfalso
+        rw [whileLoop] at he
+        simp [R.me, hb, hs, St.fail] at he
+end While
 
 end SqiProofs.SkelEvenSim
